@@ -111,7 +111,7 @@ Ltac atts_norm := repeat (first [ progress autorewrite with atts_db | rewrite at
 Lemma with_backoff_spec c k s r0 :
   match with_backoff c k s r0 with
   | HRetry s' evs => atts s' = atts s /\ n_attempts evs = 0 /\ n_rearms evs = 0
-  | HDone _ evs => quiet evs
+  | HDone _ _ evs => quiet evs
   end.
 Proof.
   unfold with_backoff. destruct (backoff c k s) as [s' e| |e] eqn:E; auto.
@@ -122,7 +122,7 @@ Qed.
 Lemma on_busy_spec c s t w :
   match on_busy c s t w with
   | HRetry s' evs => atts s' = atts s /\ n_attempts evs = 0 /\ n_rearms evs = 0
-  | HDone _ evs => quiet evs
+  | HDone _ _ evs => quiet evs
   end.
 Proof.
   unfold on_busy.
@@ -138,7 +138,7 @@ Qed.
 Lemma on_send_fail_spec c s t d l :
   match on_send_fail c s t d l with
   | HRetry s' evs => atts s' = atts s /\ n_attempts evs = 0 /\ n_rearms evs = 0
-  | HDone _ evs => quiet evs
+  | HDone _ _ evs => quiet evs
   end.
 Proof.
   unfold on_send_fail. destruct (dead s); [auto|]. destruct (d && c_short_to c && c_read c).
@@ -156,7 +156,7 @@ Proof. unfold room. now intros ->. Qed.
 Lemma on_not_leader_hint_spec lim s t k :
   match on_not_leader_hint lim s t k with
   | HRetry s' evs => room s' <= room s + n_rearms evs /\ n_attempts evs = 0
-  | HDone _ evs => quiet evs
+  | HDone _ _ evs => quiet evs
   end.
 Proof.
   unfold on_not_leader_hint. cbv zeta.
@@ -170,6 +170,8 @@ Proof.
   { subst s2. unfold room, atts at 1, upd_rep. cbn [reps set_reps].
     assert (E : reps (match lim with Some _ => if w then set_rearmed_v (upd k S (rearmed_v s1)) s1 else s1 | None => s1 end) = reps s1)
       by (destruct lim; [destruct w|]; reflexivity).
+    rewrite (map_upd_same attempts (fun r : rep => if k =? leader s1 then r else set_rstale false r))
+      by (intros r; destruct (k =? leader s1); reflexivity).
     rewrite E. fold (atts s1).
     pose proof (room_upd_rearm k (fun r => set_f_suspect false (set_f_notleader false (if w then set_attempts (max_replica_attempt - 1) r else r)))
                   (fun _ => w) (reps s1)) as L.
@@ -184,14 +186,14 @@ Qed.
 Lemma handle_spec fixed c s t o i :
   match handle fixed c s t o i with
   | HRetry s' evs => room s' <= room s + n_rearms evs /\ n_attempts evs = 0
-  | HDone _ evs => quiet evs
+  | HDone _ _ evs => quiet evs
   end.
 Proof.
-  assert (G : forall h, match h with HRetry s' evs => atts s' = atts s /\ n_attempts evs = 0 /\ n_rearms evs = 0 | HDone _ evs => quiet evs end ->
-              match h with HRetry s' evs => room s' <= room s + n_rearms evs /\ n_attempts evs = 0 | HDone _ evs => quiet evs end).
-  { intros [s' evs|r evs]; auto. intros (A & B & C). rewrite (room_eq _ _ A). lia. }
+  assert (G : forall h, match h with HRetry s' evs => atts s' = atts s /\ n_attempts evs = 0 /\ n_rearms evs = 0 | HDone _ _ evs => quiet evs end ->
+              match h with HRetry s' evs => room s' <= room s + n_rearms evs /\ n_attempts evs = 0 | HDone _ _ evs => quiet evs end).
+  { intros [s' evs|sd r evs]; auto. intros (A & B & C). rewrite (room_eq _ _ A). lia. }
   assert (W : forall k s0 r0, atts s0 = atts s ->
-              match with_backoff c k s0 r0 with HRetry s' evs => room s' <= room s + n_rearms evs /\ n_attempts evs = 0 | HDone _ evs => quiet evs end).
+              match with_backoff c k s0 r0 with HRetry s' evs => room s' <= room s + n_rearms evs /\ n_attempts evs = 0 | HDone _ _ evs => quiet evs end).
   { intros k s0 r0 E. pose proof (with_backoff_spec c k s0 r0) as X. destruct (with_backoff c k s0 r0); auto.
     destruct X as (A & B & C). rewrite (room_eq _ _ (eq_trans A E)). lia. }
   destruct o; cbn [handle]; auto;
